@@ -75,9 +75,14 @@ class DefaultPolicyFactory(pythia.PolicyFactory):
       from vizier._src.algorithms.designers import grid
 
       shuffle_seed = int(time.time())
-      grid_factory = functools.partial(
-          grid.GridSearchDesigner.from_problem, shuffle_seed=shuffle_seed
-      )
+
+      def grid_factory(problem, seed=None):
+        # `from_problem` names the argument `seed`; the policy calls the
+        # factory with `seed=None` (fresh study) or without it (restore).
+        return grid.GridSearchDesigner.from_problem(
+            problem, seed=shuffle_seed if seed is None else seed
+        )
+
       return dp.PartiallySerializableDesignerPolicy(
           problem_statement,
           policy_supporter,
